@@ -25,7 +25,7 @@ import (
 	"verif/vk"
 )
 
-const c06Rule = "one inbound message built field by field from a defect matrix (BeginString ok/other/junk; Sender/TargetCompID ok/swapped/foreign/empty/absent; optional Sub/Location/OnBehalfOf/DeliverTo IDs; SendingTime now / inside / outside the latency window / malformed / empty / absent; MsgSeqNum at/above/below expected, absent/empty/junk; PossDup and OrigSendingTime combinations; application and administrative types) delivered in the normal, recovering, test-request-pending and combined states and in the logon state, for every BeginString, CheckLatency on/off, MaxLatency 60/120/3600 s, with and without a dictionary; when the number was above the expected one the gap is then filled and the callbacks are looked at again; non-trivial = a parsable message with at least one defect, or a defect-free control; distinct = distinct (configuration, state, message shape)"
+const c06Rule = "one inbound message built field by field from a defect matrix (BeginString ok/other/junk; Sender/TargetCompID ok/swapped/foreign/empty/absent; optional Sub/Location/OnBehalfOf/DeliverTo IDs; SendingTime now / inside / outside the latency window / malformed / empty / absent; MsgSeqNum at/above/below expected, absent/empty/junk; PossDup and OrigSendingTime combinations; application and administrative types) delivered in the normal, recovering, test-request-pending and combined states and in the logon state (the Logon plain, carrying ResetSeqNumFlag=Y, or met by ResetOnLogon), for every BeginString, CheckLatency on/off, MaxLatency 60/120/3600 s, with and without a dictionary; when the number was above the expected one the gap is then filled and the callbacks are looked at again; non-trivial = a parsable message with at least one defect, or a defect-free control; distinct = distinct (configuration, state, message shape)"
 
 func c06() *stats.Collector {
 	c := stats.Get("C06")
@@ -96,9 +96,21 @@ func c06Property(t *rapid.T) {
 			cfg.settings[config.DataDictionary] = spec + dictForBegin[begin] + ".xml"
 		}
 	}
+	state := rapid.SampledFrom([]string{"normal", "normal", "recovering", "pending", "pending+recovering", "logon"}).Draw(t, "state")
+	// a Logon may come in on the path that resets the store first (it carries ResetSeqNumFlag=Y, or
+	// the acceptor is configured with ResetOnLogon): the same checks gate it
+	resetPath := ""
+	if state == "logon" {
+		resetPath = rapid.SampledFrom([]string{"", "", "flag", "option"}).Draw(t, "logon-reset-path")
+		if resetPath == "flag" && begin == "FIX.4.0" || resetPath == "option" && cfg.initiator {
+			resetPath = ""
+		}
+		if resetPath == "option" {
+			cfg.settings[config.ResetOnLogon] = "Y"
+		}
+	}
 	s := newSim(t, c, cfg)
 	defer s.close()
-	state := rapid.SampledFrom([]string{"normal", "normal", "recovering", "pending", "pending+recovering", "logon"}).Draw(t, "state")
 	// ---- bring the session into the state
 	if state == "logon" {
 		if !s.connect() {
@@ -267,7 +279,10 @@ func c06Property(t *rapid.T) {
 	case "3":
 		body = []fixwire.Field{fixwire.F(45, "1")}
 	case "A":
-		body = s.p.LogonBody(30, false)
+		body = s.p.LogonBody(30, resetPath == "flag")
+		if resetPath != "" {
+			c.Class("logon:on-the-reset-path/" + resetPath)
+		}
 	}
 	raw := s.p.Frame(msgType, seq, body, o)
 	s.logf("TEST MESSAGE in state %s: %s", state, vk.Show(raw))
